@@ -284,3 +284,8 @@ def run(ctx):
             sorted(sets['SF_ENDIAN_CPU']), host, sorted(sets[host]), '' if not extra else ' — SF_ENDIAN_CPU resolves to %s on a %s CPU' % (sorted(extra), 'big-endian' if host.endswith('BIG') else 'little-endian')), None)
     ctx.require(nec >= 8, 'only %d functions resolving SF_ENDIAN_CPU found' % nec)
 
+    ctx.rule('TAG-SEQ', 'MAT5: the sequence of MAT5_TYPE_* element tags written by mat5_write_header is accepted position by position by the type tests of mat5_read_header '
+             '(alternatives of an if/else share a position; a switch accepts its case labels)', floor=8)
+    from engine.tagseq import tag_seq
+    tag_seq(ctx, prog)
+
